@@ -9,6 +9,7 @@ import (
 	"io"
 	"net/http"
 	"strings"
+	"time"
 
 	"github.com/go-jose/go-jose/v3"
 	"go.opentelemetry.io/otel/trace"
@@ -302,6 +303,13 @@ func (f *Fosite) authorizeRequestFromPAR(ctx context.Context, r *http.Request, r
 	var err error
 	if parRequest, err = storage.GetPARSession(ctx, requestURI); err != nil {
 		return false, errorsx.WithStack(ErrInvalidRequestURI.WithHint("Invalid PAR session").WithWrap(err).WithDebug(err.Error()))
+	}
+
+	// The pushed authorization request is short-lived: refuse it once its context has expired.
+	if session := parRequest.GetSession(); session != nil {
+		if exp := session.GetExpiresAt(PushedAuthorizeRequestContext); !exp.IsZero() && exp.Before(time.Now().UTC()) {
+			return false, errorsx.WithStack(ErrInvalidRequestURI.WithHint("The pushed authorization request has expired."))
+		}
 	}
 
 	// hydrate the request object
